@@ -208,7 +208,11 @@ static RunInfo run_history(const std::vector<Op> & ops)
       if (!s.g) continue;
       bxdecay0::event local; bxdecay0::event * ev = &local;
       if (o.evkind == 1) ev = &s.ev; // persistent event object of this slot, reused across shots
-      if (o.evkind == 2) { bxdecay0::particle p; p.set_code(bxdecay0::ALPHA); p.set_time(3.0); p.set_momentum(9, 8, 7); for (int i = 0; i < o.junk; i++) local.add_particle(p); local.set_generator("junk"); local.set_time(5.0); }
+      if (o.evkind == 2) { // leftover of some other use of the object: particles / label / reference time in every combination (o.junk % 4)
+        bxdecay0::particle p; p.set_code(bxdecay0::ALPHA); p.set_time(3.0); p.set_momentum(9, 8, 7); int v = o.junk % 4;
+        if (v != 3) for (int i = 0; i < 1 + o.junk / 4; i++) local.add_particle(p);
+        if (v == 0 || v == 2 || v == 3) local.set_generator("junk");
+        if (v == 0 || v == 3) local.set_time(5.0); }
       if (o.evkind == 3) { ev = &s.ev; s.ev.grab_particles().shrink_to_fit(); }
       Tape t; shot_tape(t, s.cfg, o.tseed); TapeRandom r(t, 0, 200000);
       s.g->shoot(r, *ev);
